@@ -44,3 +44,27 @@ check("C08", "exploration",
 NOT_APPLICABLE = {}
 
 HOOK_COMMITS = ["45bc492", "e36cf10"]
+
+check("C14", "model_checking",
+      "CircularBuf: BFS to closure over {write,take,close} histories for every capacity<=6 units x write size 1..3 x read size, "
+      "lock-step VecDeque model. OrderingSender: every interleaving of 2-3 writer tasks + main (close || stream) with <= k "
+      "preemptions under a bounded-DFS shuttle scheduler. states = distinct canonical states (BFS) + distinct schedules (DFS); "
+      "transitions = model transitions + scheduling points executed.",
+      [
+          {"name": "circular", "config": "A", "test": "helpers::buffers::verif::c14_circ::run"},
+          {"name": "receiver", "config": "A", "test": "helpers::buffers::verif::c14_recv::run",
+           "require": {"any": {"max_distinct_first_poll_orders": 6, "max_distinct_chunkings": 8}}},
+          {"name": "sender-sched", "config": "B", "test": "helpers::buffers::verif::c14_sched::run",
+           "workers": {"quick": 16, "thorough": 16},
+           "require": {"any": {"distinct:chunkings": 2}}},
+      ],
+      assumptions=["shuttle models every atomic as SeqCst: Acquire/AcqRel weak-memory behaviours are not explored",
+                   "preemption bound as listed in coverage.set_sender-sched.bounds_completed"],
+      exhaustive=True, engine="E4 bfs + E2 sched + E1 choice",
+      technique="explicit-state BFS of the real CircularBuf with a reference model; stateless preemption-bounded exhaustive "
+                "schedule exploration (CHESS-style) of the real OrderingSender under shuttle; exhaustive choice-tree "
+                "exploration of UnorderedReceiver chunkings/poll orders",
+      text="Every reachable state of CircularBuf for all small configurations is compared with a queue model on every "
+           "transition; every schedule of the real OrderingSender with 2-3 concurrent writers within the preemption bound is "
+           "executed and checked for byte order, chunk sizes and absence of deadlock (a lost wake-up is a deadlock).",
+      note="Bounded: capacity <= 6 (8) units, <= 3 writers, preemption bound 3 (2 for 3 writers); SeqCst atomics.")
